@@ -3,7 +3,7 @@ PROP = {"engines": [("list", "default"), ("slist", "default")],
                       "the well-formedness invariant is preserved by every operation and every operation of the property (insert/remove/replace/get/index_of/contains/to_array/foreach/"
                       "reverse/filter_mut/add_all/add_all_at/splice/splice_at) returns exactly the status, out-values and contents of the ideal pair of sequences, for all histories "
                       "from the constructor; backward traversal = mirror image (list). The model is run against the compiled code (ASan/UBSan) on all operand sizes 0-4 x positions, "
-                      "all short histories, iterator programs, sort traces, fault plans and random long histories; range guards are regenerated from the C source on every run.",
+                      "all short histories, iterator programs, sort traces, fault plans and random long histories; range guards are re-translated from the C source on every run and machine-proved equal to the terms the model uses.",
         "assumptions": ["splice / splice_at only: both lists use the same allocator family (they hand the source's nodes to the destination; with different families the model and the code both end in a cross-family free). All other operations, including add_all / add_all_at, are proved and run for every pair of families",
                         "size < 2^64 (size++ is modelled without wrap-around)",
                         "comparators, predicates and copy functions are pure functions"]}
